@@ -255,6 +255,45 @@ def evaluate_pairs(case):
     return V, classes, nev
 
 
+def evaluate_modeswitch(case):
+    """The access mode is changed after the handle was made: assignment follows the CURRENT mode."""
+    darr = import_darr()
+    shape, dtype = tuple(case['shape']), case['dtype']
+    ref0 = make_ref(shape, dtype)
+    path = 'm.darr'
+    V, classes, nev = [], set(), 0
+    idxs = [(0,), (slice(None),), (-1,), ([0, -1],)]
+    for first in ('r', 'r+'):
+        for ix in idxs:
+            rmtree(path)
+            darr.asarray(path, ref0, accessmode='r+')
+            a = darr.Array(path, accessmode=first)
+            ref = ref0.copy()
+            other = 'r+' if first == 'r' else 'r'
+            steps = []
+            for mode in (other, first, other):
+                a.accessmode = mode
+                nev += 1
+                w, v = outcome_of(lambda: a.__setitem__(ix, 7))
+                if mode == 'r+':
+                    ref[ix] = 7
+                    ok = w == 'returns'
+                else:
+                    ok = w == 'raises'
+                ok = ok and same(a[:], ref) and same(darr.Array(path)[:], ref) and not snapshot.open_handles_on(path)
+                steps.append((mode, w))
+                if not ok:
+                    V.append(viol('index', 'assign-after-mode-switch', f'{first}->{mode}', 'assignment does not follow the current access mode',
+                                  f'handle made with accessmode={first!r}, switched {steps}: a[{ix}] = 7 {w}; contents '
+                                  f'{"agree" if same(darr.Array(path)[:], ref) else "differ"} with NumPy'))
+                    break
+                ref[ix] = ref0[ix] if mode == 'r+' and False else ref[ix]
+            else:
+                classes.add(('modeswitch', first, str(ix)))
+    rmtree(path)
+    return V, classes, nev
+
+
 FAILURES = ['open-badmode', 'iterchunks-badlen', 'datafile-missing', 'bad-index', 'bad-value-shape', 'context-body-raises']
 
 
@@ -324,6 +363,8 @@ def evaluate_failed(case):
 def evaluate_any(case):
     if case['kind'] == 'failed':
         return evaluate_failed(case)
+    if case['kind'] == 'modeswitch':
+        return evaluate_modeswitch(case)
     return evaluate_pairs(case) if case['kind'] == 'pairs' else evaluate(case)
 
 
@@ -343,6 +384,7 @@ def run(tier):
     for sh, dt in (((3,), '<f8'), ((3, 2), '>i2')):
         cases.append({'shape': list(sh), 'dtype': dt, 'kind': 'pairs', 'part': 0})
         cases.append({'shape': list(sh), 'dtype': dt, 'kind': 'failed', 'part': 0})
+        cases.append({'shape': list(sh), 'dtype': dt, 'kind': 'modeswitch', 'part': 0})
     return run_enum(
         'C12', tier, 'dv.checks.c12:evaluate_any', cases, chunk=1,
         rule=('for each array shape (rank 1-4, extents <= 3, incl. a length-0 first axis and length-1 axes) every index tuple '
@@ -354,7 +396,7 @@ def run(tier):
               'and the raw file; each inside and outside open_array(); no descriptor/map/cache left after any call; all '
               'read/write pairs on overlapping indices; six kinds of failed operation (invalid open mode, invalid chunk length, '
               'data file temporarily missing, bad index, bad value shape, exception inside a context), once and twice, followed by a '
-              'read and an append + read on the same handle; class = (outcome kind, result rank, emptiness, tuple length)'),
+              'read and an append + read on the same handle; assignment after the access mode was switched once, twice, three times; class = (outcome kind, result rank, emptiness, tuple length)'),
         assumptions=['NumPy ndarray indexing as reference', 'extents <= 3 (index semantics depend on an extent only through '
                      'in-range / boundary / out-of-range)'])
 
